@@ -14,6 +14,11 @@ Open Scope string_scope.
 Definition no_stale_options : Prop :=
   forall a, In a attr_names -> exists c, class_of a = Some c /\ c <> Finding.
 
+(* (2') what holds on the current tree: no attribute is a finding EXCEPT the explicitly listed by-design ones
+   (deliberate behaviour, each with a model witness and a witness replayed on the implementation by S). *)
+Definition no_stale_options_except (allowed : list string) : Prop :=
+  forall a, In a attr_names -> exists c, class_of a = Some c /\ (c = Finding -> In a allowed).
+
 (* (3) not proved, monitored by the toggle matrix: the real analysis (semantic analysis, checker, render_messages)
    reads, of a module's resolved options, only attributes classified key or dir -- i.e. the hypothesis
    `analyze_reads` + `covered` of the mechanism theorem holds for the real checker with
